@@ -19,6 +19,9 @@ EXPLANATION = (
     "the collecting executors must return every selected callback's value unfiltered (gather keeps order); `_trigger` must "
     "hand out that value only when the transition executed and None otherwise. Concrete return values are not computed."
 )
+EXPLANATION += (
+    " " + 'Two clauses are shared with other properties because they are necessary here too: spec identity (a callback dropped as duplicate contributes no result - C02.once) and queue clearing on every failure (stale triggers would answer the next call - C04.clear).'
+)
 ASSUMPTIONS = ["list concatenation and asyncio.gather preserve order (language/library semantics)"]
 TRUSTED = ["/verif/sa path enumerator (def-use terms)"]
 
